@@ -167,6 +167,7 @@ func checkC02(p *core.Program, r *core.Report) {
 		}
 	}
 	checkRefusalsClose(p, r, R2, serve, "inbound")
+	checkSubprotocolConfig(p, r, R2, serve, a.dialFns)
 
 	// ---------- outbound
 	for _, d := range a.dialFns {
@@ -868,4 +869,66 @@ func allocFilledFromCert(al *ssa.Alloc, cert ssa.Value, depth int) bool {
 		}
 	}
 	return false
+}
+
+// checkSubprotocolConfig: the sub-protocol check relies on gorilla negotiating from the Upgrader's /
+// Dialer's Subprotocols list: both literals must offer exactly the SHIP sub-protocol and the inbound
+// Upgrade must not inject a Sec-WebSocket-Protocol response header of its own.
+func checkSubprotocolConfig(p *core.Program, r *core.Report, rule string, serve *ssa.Function, dialFns []*ssa.Function) {
+	want := ""
+	if c := p.Const("api", "ShipWebsocketSubProtocol"); c != nil {
+		want = constant.StringVal(c.Val())
+	}
+	offers := func(fn *ssa.Function, typeName string) (found bool, vals []string, pos token.Pos) {
+		core.EachInstr(fn, func(in ssa.Instruction) {
+			f, b, v := core.StoredField(in)
+			if f == nil || f.Name() != "Subprotocols" || !core.TypeIs(b.Type(), "github.com/gorilla/websocket", typeName) {
+				return
+			}
+			found, pos = true, in.Pos()
+			// elements stored into the backing array of the slice
+			if sl, ok := v.(*ssa.Slice); ok {
+				if al, ok := sl.X.(*ssa.Alloc); ok {
+					for _, ref := range *al.Referrers() {
+						if ia, ok := ref.(*ssa.IndexAddr); ok {
+							for _, r2 := range *ia.Referrers() {
+								if st, ok := r2.(*ssa.Store); ok {
+									if c, ok := strConst(st.Val); ok {
+										vals = append(vals, c)
+									} else {
+										vals = append(vals, "?")
+									}
+								}
+							}
+						}
+					}
+				}
+			}
+		})
+		return
+	}
+	judge := func(fn *ssa.Function, typeName, dir string) {
+		found, vals, pos := offers(fn, typeName)
+		key := dir + " " + typeName + ".Subprotocols in " + p.FnName(fn)
+		if found && len(vals) == 1 && vals[0] == want && want != "" {
+			r.OK(rule, key, p.Pos(pos), "offers exactly the SHIP sub-protocol")
+		} else {
+			r.Fail(rule, key, p.Pos(fn.Pos()), fmt.Sprintf("the websocket %s does not negotiate exactly the '%s' sub-protocol (Subprotocols=%v): the sub-protocol check below it no longer reflects what the peer offered", typeName, want, vals))
+		}
+	}
+	judge(serve, "Upgrader", "inbound")
+	for _, d := range dialFns {
+		judge(d, "Dialer", "outbound")
+	}
+	core.EachInstr(serve, func(in ssa.Instruction) {
+		if core.IsStaticCall(in, "(*github.com/gorilla/websocket.Upgrader).Upgrade") {
+			c := core.Common(in)
+			key := "inbound Upgrade response header"
+			if core.IsNilConst(c.Args[len(c.Args)-1]) {
+				r.OK(rule, key, p.Pos(in.Pos()), "no response header injected")
+			} else {
+				r.Fail(rule, key, p.Pos(in.Pos()), "Upgrade is given its own response header: a Sec-WebSocket-Protocol set there is reported by conn.Subprotocol() whatever the peer offered")
+			}
+		}
+	})
 }
